@@ -14,6 +14,8 @@ package lease_set
 //@ import "github.com/go-i2p/common/destination"
 //@ import "github.com/go-i2p/common/key_certificate"
 //@ import sig "github.com/go-i2p/common/signature"
+//@ import "github.com/go-i2p/common/lease"
+//@ import goi2ped25519 "github.com/go-i2p/crypto/ed25519"
 
 //@ loop extractLeases 0: unroll 16
 //@ loop LeaseSet.Bytes 0: concrete 16
@@ -40,6 +42,21 @@ package lease_set
 //@   requires LSInv(lease_set)
 //@   ensures @C05 err == nil ==> sigvalid(lease_set.dest.KeysAndCert.SigningPublic.Bytes(), LSSigned(lease_set), sig.SigData(lease_set.signature))
 //@   modifies nothing
+
+// C06: a LeaseSet built by NewLeaseSet with the private half of the
+// destination's Ed25519 signing key verifies (one lease; everything executed
+// from the bodies).
+//@ option C06_LeaseSetSignThenVerify nocontract *
+//@ lemma C06_LeaseSetSignThenVerify(data []byte, l lease.Lease, priv goi2ped25519.Ed25519PrivateKey) {
+//@   d, _, err := destination.ReadDestination(data)
+//@   assume(err == nil && len(priv) == 64)
+//@   assume(key_certificate.SigType(d.KeysAndCert.KeyCertificate) == 7 && key_certificate.CryptoType(d.KeysAndCert.KeyCertificate) == 0)
+//@   assume(seqeq(d.KeysAndCert.SigningPublic.Bytes(), priv[32:]))
+//@   ls, e := NewLeaseSet(d, d.KeysAndCert.ReceivingPublic, d.KeysAndCert.SigningPublic, []lease.Lease{l}, priv)
+//@   if e == nil {
+//@     assert(ls.Verify() == nil)
+//@   }
+//@ }
 
 // C01: re-serialising an accepted LeaseSet reproduces the bytes it was parsed
 // from (ReadLeaseSet returns no remainder: it consumes up to the end of the
